@@ -64,13 +64,13 @@ type c47Account struct {
 }
 
 type c47State struct {
-	scheme  string
-	accts   []*c47Account // ascending by hash
-	byHash  map[common.Hash]*c47Account
-	ref     *reftrie.Result
-	root    common.Hash
-	codes   map[common.Hash][]byte
-	slots   int
+	scheme string
+	accts  []*c47Account // ascending by hash
+	byHash map[common.Hash]*c47Account
+	ref    *reftrie.Result
+	root   common.Hash
+	codes  map[common.Hash][]byte
+	slots  int
 	// geth side, for the peers
 	accTrie  *trie.Trie
 	accElems []*kv
@@ -458,7 +458,22 @@ func (r *c47Run) tick() {
 	}
 }
 
+// c47Src adapts a snap/1 testPeer or a snap/2 testPeerV2 to the scripted handlers.
+type c47Src struct {
+	id      string
+	accTrie *trie.Trie
+	accVals []*kv
+	stTries map[common.Hash]*trie.Trie
+	mkAcc   func(root, origin, limit common.Hash, cap int) ([]common.Hash, [][]byte, [][]byte)
+	mkSto   func(root common.Hash, accounts []common.Hash, origin, limit []byte, max int, alwaysProve bool) ([][]common.Hash, [][][]byte, [][]byte)
+	onAcc   func(id uint64, hashes []common.Hash, accounts [][]byte, proof [][]byte) error
+	onSto   func(id uint64, hashes [][]common.Hash, slots [][][]byte, proof [][]byte) error
+	onCode  func(id uint64, codes [][]byte) error
+	onNode  func(id uint64, nodes [][]byte) error
+}
+
 type c47Peer struct {
+	src    *c47Src
 	run    *c47Run
 	script [4][]int
 	pos    [4]atomic.Int32
@@ -527,7 +542,7 @@ func c47Prove(tr *trie.Trie, origin []byte, last []byte) [][]byte {
 	return proof.List()
 }
 
-func (p *c47Peer) onAccounts(t *testPeer, id uint64, root, origin, limit common.Hash, cap int) error {
+func (p *c47Peer) onAccounts(id uint64, root, origin, limit common.Hash, cap int) error {
 	p.run.tick()
 	bh := p.next(kAcc)
 	p.perturb(bh)
@@ -535,13 +550,13 @@ func (p *c47Peer) onAccounts(t *testPeer, id uint64, root, origin, limit common.
 	case bhDrop:
 		return nil
 	case bhEmpty:
-		t.remote.OnAccounts(t, id, nil, nil, nil)
+		p.src.onAcc(id, nil, nil, nil)
 		return nil
 	case bhCapTiny:
 		cap = 60 + p.rand(900)
 	}
 	p.mu.Lock()
-	keys, vals, proofs := createAccountRequestResponse(t, root, origin, limit, cap)
+	keys, vals, proofs := p.src.mkAcc(root, origin, limit, cap)
 	tampered := false
 	r := p.rand(1 << 20)
 	switch bh {
@@ -549,7 +564,7 @@ func (p *c47Peer) onAccounts(t *testPeer, id uint64, root, origin, limit common.
 		if len(keys) > 1 {
 			k := 1 + r%(len(keys)-1)
 			keys, vals = keys[:k], vals[:k]
-			proofs = c47Prove(t.accountTrie, origin[:], keys[k-1][:])
+			proofs = c47Prove(p.src.accTrie, origin[:], keys[k-1][:])
 		}
 	case bhNoProof:
 		tampered = len(proofs) > 0
@@ -592,22 +607,22 @@ func (p *c47Peer) onAccounts(t *testPeer, id uint64, root, origin, limit common.
 	case bhExtra:
 		// bloat the proof with every account's path
 		proof := trienode.NewProofSet()
-		t.accountTrie.Prove(origin[:], proof)
-		for _, e := range t.accountValues {
-			t.accountTrie.Prove(e.k, proof)
+		p.src.accTrie.Prove(origin[:], proof)
+		for _, e := range p.src.accVals {
+			p.src.accTrie.Prove(e.k, proof)
 		}
 		proofs = proof.List()
 	}
 	p.mu.Unlock()
 	if len(keys) == 0 && len(proofs) == 0 && bh <= bhDelay && c47DebugLines.Add(1) <= 10 {
-		fmt.Printf("C47-DEBUG %s: unintended empty account reply bh=%s origin=%x limit=%x cap=%d\n", t.id, c47BhNames[bh], origin, limit, cap)
+		fmt.Printf("C47-DEBUG %s: unintended empty account reply bh=%s origin=%x limit=%x cap=%d\n", p.src.id, c47BhNames[bh], origin, limit, cap)
 	}
-	err := t.remote.OnAccounts(t, id, keys, vals, proofs)
+	err := p.src.onAcc(id, keys, vals, proofs)
 	p.done(kAcc, err, tampered)
 	return nil
 }
 
-func (p *c47Peer) onStorage(t *testPeer, id uint64, root common.Hash, accounts []common.Hash, origin, limit []byte, max int) error {
+func (p *c47Peer) onStorage(id uint64, root common.Hash, accounts []common.Hash, origin, limit []byte, max int) error {
 	p.run.tick()
 	if len(accounts) == 1 && origin != nil {
 		p.run.chunked.Add(1)
@@ -618,7 +633,7 @@ func (p *c47Peer) onStorage(t *testPeer, id uint64, root common.Hash, accounts [
 	case bhDrop:
 		return nil
 	case bhEmpty:
-		t.remote.OnStorage(t, id, nil, nil, nil)
+		p.src.onSto(id, nil, nil, nil)
 		return nil
 	case bhCapTiny:
 		max = 40 + p.rand(700)
@@ -629,11 +644,7 @@ func (p *c47Peer) onStorage(t *testPeer, id uint64, root common.Hash, accounts [
 		slots  [][][]byte
 		proofs [][]byte
 	)
-	if bh == bhExtra {
-		hashes, slots, proofs = createStorageRequestResponseAlwaysProve(t, root, accounts, origin, limit, max)
-	} else {
-		hashes, slots, proofs = createStorageRequestResponse(t, root, accounts, origin, limit, max)
-	}
+	hashes, slots, proofs = p.src.mkSto(root, accounts, origin, limit, max, bh == bhExtra)
 	tampered := false
 	r := p.rand(1 << 20)
 	pick := func() (int, bool) { // a non-empty set
@@ -700,14 +711,14 @@ func (p *c47Peer) onStorage(t *testPeer, id uint64, root common.Hash, accounts [
 	}
 	p.mu.Unlock()
 	if len(hashes) == 0 && len(proofs) == 0 && bh <= bhDelay && c47DebugLines.Add(1) <= 10 {
-		fmt.Printf("C47-DEBUG %s: unintended empty storage reply bh=%s accounts=%x origin=%x limit=%x max=%d\n", t.id, c47BhNames[bh], accounts, origin, limit, max)
+		fmt.Printf("C47-DEBUG %s: unintended empty storage reply bh=%s accounts=%x origin=%x limit=%x max=%d\n", p.src.id, c47BhNames[bh], accounts, origin, limit, max)
 	}
-	err := t.remote.OnStorage(t, id, hashes, slots, proofs)
+	err := p.src.onSto(id, hashes, slots, proofs)
 	p.done(kSto, err, tampered)
 	return nil
 }
 
-func (p *c47Peer) onCodes(t *testPeer, id uint64, hashes []common.Hash, max int) error {
+func (p *c47Peer) onCodes(id uint64, hashes []common.Hash, max int) error {
 	p.run.tick()
 	bh := p.next(kCode)
 	p.perturb(bh)
@@ -715,7 +726,7 @@ func (p *c47Peer) onCodes(t *testPeer, id uint64, hashes []common.Hash, max int)
 	case bhDrop:
 		return nil
 	case bhEmpty:
-		t.remote.OnByteCodes(t, id, nil)
+		p.src.onCode(id, nil)
 		return nil
 	}
 	var codes [][]byte
@@ -749,14 +760,14 @@ func (p *c47Peer) onCodes(t *testPeer, id uint64, hashes []common.Hash, max int)
 		tampered = true
 	}
 	if len(codes) == 0 && c47DebugLines.Add(1) <= 10 {
-		fmt.Printf("C47-DEBUG %s: unintended empty code reply bh=%s hashes=%x\n", t.id, c47BhNames[bh], hashes)
+		fmt.Printf("C47-DEBUG %s: unintended empty code reply bh=%s hashes=%x\n", p.src.id, c47BhNames[bh], hashes)
 	}
-	err := t.remote.OnByteCodes(t, id, codes)
+	err := p.src.onCode(id, codes)
 	p.done(kCode, err, tampered)
 	return nil
 }
 
-func (p *c47Peer) onTrieNodes(t *testPeer, id uint64, root common.Hash, paths []TrieNodePathSet, cap int) error {
+func (p *c47Peer) onTrieNodes(id uint64, root common.Hash, paths []TrieNodePathSet, cap int) error {
 	p.run.tick()
 	p.run.healReqs.Add(1)
 	bh := p.next(kNode)
@@ -765,7 +776,7 @@ func (p *c47Peer) onTrieNodes(t *testPeer, id uint64, root common.Hash, paths []
 	case bhDrop:
 		return nil
 	case bhEmpty:
-		t.remote.OnTrieNodes(t, id, nil)
+		p.src.onNode(id, nil)
 		return nil
 	}
 	var nodes [][]byte
@@ -773,11 +784,11 @@ func (p *c47Peer) onTrieNodes(t *testPeer, id uint64, root common.Hash, paths []
 	for _, pathset := range paths {
 		switch len(pathset) {
 		case 1:
-			if blob, _, err := t.accountTrie.GetNode(pathset[0]); err == nil {
+			if blob, _, err := p.src.accTrie.GetNode(pathset[0]); err == nil {
 				nodes = append(nodes, blob)
 			}
 		default:
-			tr := t.storageTries[common.BytesToHash(pathset[0])]
+			tr := p.src.stTries[common.BytesToHash(pathset[0])]
 			if tr == nil {
 				a := p.run.state.byHash[common.BytesToHash(pathset[0])]
 				if c47DebugLines.Add(1) <= 10 {
@@ -822,9 +833,9 @@ func (p *c47Peer) onTrieNodes(t *testPeer, id uint64, root common.Hash, paths []
 		}
 	}
 	if len(nodes) == 0 && c47DebugLines.Add(1) <= 10 {
-		fmt.Printf("C47-DEBUG %s: unintended empty trie node reply bh=%s paths=%x\n", t.id, c47BhNames[bh], paths)
+		fmt.Printf("C47-DEBUG %s: unintended empty trie node reply bh=%s paths=%x\n", p.src.id, c47BhNames[bh], paths)
 	}
-	err := t.remote.OnTrieNodes(t, id, nodes)
+	err := p.src.onNode(id, nodes)
 	p.done(kNode, err, tampered)
 	return nil
 }
@@ -837,17 +848,77 @@ func c47NewPeer(t *testing.T, name string, run *c47Run, cp *c47Peer) *testPeer {
 	tp.accountValues = st.accElems
 	tp.setStorageTries(st.stTries)
 	tp.storageValues = st.stElems
-	tp.accountRequestHandler = func(t *testPeer, id uint64, root, origin, limit common.Hash, cap int) error {
-		return cp.onAccounts(t, id, root, origin, limit, cap)
+	cp.src = &c47Src{
+		id: name, accTrie: tp.accountTrie, accVals: tp.accountValues, stTries: tp.storageTries,
+		mkAcc: func(root, origin, limit common.Hash, cap int) ([]common.Hash, [][]byte, [][]byte) {
+			return createAccountRequestResponse(tp, root, origin, limit, cap)
+		},
+		mkSto: func(root common.Hash, accounts []common.Hash, origin, limit []byte, max int, always bool) ([][]common.Hash, [][][]byte, [][]byte) {
+			if always {
+				return createStorageRequestResponseAlwaysProve(tp, root, accounts, origin, limit, max)
+			}
+			return createStorageRequestResponse(tp, root, accounts, origin, limit, max)
+		},
+		onAcc: func(id uint64, h []common.Hash, a [][]byte, pr [][]byte) error {
+			return tp.remote.OnAccounts(tp, id, h, a, pr)
+		},
+		onSto: func(id uint64, h [][]common.Hash, sl [][][]byte, pr [][]byte) error {
+			return tp.remote.OnStorage(tp, id, h, sl, pr)
+		},
+		onCode: func(id uint64, c [][]byte) error { return tp.remote.OnByteCodes(tp, id, c) },
+		onNode: func(id uint64, n [][]byte) error { return tp.remote.OnTrieNodes(tp, id, n) },
 	}
-	tp.storageRequestHandler = func(t *testPeer, id uint64, root common.Hash, accounts []common.Hash, origin, limit []byte, max int) error {
-		return cp.onStorage(t, id, root, accounts, origin, limit, max)
+	tp.accountRequestHandler = func(_ *testPeer, id uint64, root, origin, limit common.Hash, cap int) error {
+		return cp.onAccounts(id, root, origin, limit, cap)
 	}
-	tp.codeRequestHandler = func(t *testPeer, id uint64, hashes []common.Hash, max int) error {
-		return cp.onCodes(t, id, hashes, max)
+	tp.storageRequestHandler = func(_ *testPeer, id uint64, root common.Hash, accounts []common.Hash, origin, limit []byte, max int) error {
+		return cp.onStorage(id, root, accounts, origin, limit, max)
 	}
-	tp.trieRequestHandler = func(t *testPeer, id uint64, root common.Hash, paths []TrieNodePathSet, cap int) error {
-		return cp.onTrieNodes(t, id, root, paths, cap)
+	tp.codeRequestHandler = func(_ *testPeer, id uint64, hashes []common.Hash, max int) error {
+		return cp.onCodes(id, hashes, max)
+	}
+	tp.trieRequestHandler = func(_ *testPeer, id uint64, root common.Hash, paths []TrieNodePathSet, cap int) error {
+		return cp.onTrieNodes(id, root, paths, cap)
+	}
+	return tp
+}
+
+func c47NewPeerV2(t *testing.T, name string, run *c47Run, cp *c47Peer) *testPeerV2 {
+	cp.run = run
+	tp := newTestPeerV2(name, t, func() {})
+	st := run.state
+	tp.accountTrie = st.accTrie.Copy()
+	tp.accountValues = st.accElems
+	tp.setStorageTries(st.stTries)
+	tp.storageValues = st.stElems
+	cp.src = &c47Src{
+		id: name, accTrie: tp.accountTrie, accVals: tp.accountValues, stTries: tp.storageTries,
+		mkAcc: func(root, origin, limit common.Hash, cap int) ([]common.Hash, [][]byte, [][]byte) {
+			return createAccountRequestResponseV2(tp, root, origin, limit, cap)
+		},
+		mkSto: func(root common.Hash, accounts []common.Hash, origin, limit []byte, max int, always bool) ([][]common.Hash, [][][]byte, [][]byte) {
+			if always {
+				return createStorageRequestResponseAlwaysProveV2(tp, root, accounts, origin, limit, max)
+			}
+			return createStorageRequestResponseV2(tp, root, accounts, origin, limit, max)
+		},
+		onAcc: func(id uint64, h []common.Hash, a [][]byte, pr [][]byte) error {
+			return tp.remote.OnAccounts(tp, id, h, a, pr)
+		},
+		onSto: func(id uint64, h [][]common.Hash, sl [][][]byte, pr [][]byte) error {
+			return tp.remote.OnStorage(tp, id, h, sl, pr)
+		},
+		onCode: func(id uint64, c [][]byte) error { return tp.remote.OnByteCodes(tp, id, c) },
+		onNode: func(id uint64, n [][]byte) error { return nil },
+	}
+	tp.accountRequestV2Handler = func(_ *testPeerV2, id uint64, root, origin, limit common.Hash, cap int) error {
+		return cp.onAccounts(id, root, origin, limit, cap)
+	}
+	tp.storageRequestV2Handler = func(_ *testPeerV2, id uint64, root common.Hash, accounts []common.Hash, origin, limit []byte, max int) error {
+		return cp.onStorage(id, root, accounts, origin, limit, max)
+	}
+	tp.codeRequestHandler = func(_ *testPeerV2, id uint64, hashes []common.Hash, max int) error {
+		return cp.onCodes(id, hashes, max)
 	}
 	return tp
 }
@@ -970,9 +1041,9 @@ type c47Outcome struct {
 // c47Sync runs one Sync cycle with a progress watchdog. A stall (no request served
 // for stallAfter, or the total bound reached) cancels the cycle and is reported as
 // such, never as a verdict.
-func c47Sync(sy *syncer, run *c47Run, root common.Hash, bound time.Duration) c47Outcome {
+func c47Sync(syncFn func(cancel chan struct{}) error, dump func() string, run *c47Run, bound time.Duration) c47Outcome {
 	done := make(chan error, 1)
-	go func() { done <- sy.Sync(root, run.cancel) }()
+	go func() { done <- syncFn(run.cancel) }()
 	var (
 		deadline   = time.Now().Add(bound)
 		lastServed = run.served.Load()
@@ -992,7 +1063,7 @@ func c47Sync(sy *syncer, run *c47Run, root common.Hash, bound time.Duration) c47
 				if c47StackDumps.Add(1) <= 2 {
 					buf := make([]byte, 1<<20)
 					buf = buf[:runtime.Stack(buf, true)]
-					fmt.Printf("=== C47 stall: goroutines at the time of the stall (served=%d) ===\n%s\n%s\n=== end of stall dump ===\n", run.served.Load(), buf, c47DumpSyncer(sy))
+					fmt.Printf("=== C47 stall: goroutines at the time of the stall (served=%d) ===\n%s\n%s\n=== end of stall dump ===\n", run.served.Load(), buf, dump())
 				}
 				run.cancelOnce.Do(func() { close(run.cancel) })
 				err := <-done
@@ -1080,6 +1151,63 @@ func c47ScriptString(s [4][]int) string {
 	return sb.String()
 }
 
+func c47DrawShape(rt *rapid.T) c47Shape {
+	sh := c47Shape{
+		scheme:    rapid.SampledFrom([]string{rawdb.HashScheme, rawdb.PathScheme}).Draw(rt, "scheme"),
+		seed:      rapid.Uint64().Draw(rt, "stateSeed"),
+		hostile:   rapid.Bool().Draw(rt, "hostileKeys"),
+		stShare:   rapid.SampledFrom([]int{0, 20, 60, 90, 90}).Draw(rt, "storageShare"),
+		codeShare: rapid.SampledFrom([]int{0, 30, 90}).Draw(rt, "codeShare"),
+	}
+	maxAcc := 120
+	if vs.Thorough() {
+		maxAcc = 300
+	}
+	switch rapid.IntRange(0, 5).Draw(rt, "nAccCls") {
+	case 0:
+		sh.nAccounts = rapid.IntRange(1, 3).Draw(rt, "nAccTiny")
+	case 1, 2:
+		sh.nAccounts = rapid.IntRange(4, 30).Draw(rt, "nAccSmall")
+	default:
+		sh.nAccounts = rapid.IntRange(31, maxAcc).Draw(rt, "nAcc")
+	}
+	nTpl := rapid.IntRange(1, 3).Draw(rt, "nStorageTemplates")
+	for i := 0; i < nTpl; i++ {
+		switch rapid.IntRange(0, 5).Draw(rt, fmt.Sprintf("tpl%d/cls", i)) {
+		case 0:
+			sh.stSizes = append(sh.stSizes, 1)
+		case 1, 2:
+			sh.stSizes = append(sh.stSizes, rapid.IntRange(2, 12).Draw(rt, fmt.Sprintf("tpl%d/few", i)))
+		case 3, 4:
+			sh.stSizes = append(sh.stSizes, rapid.IntRange(20, 150).Draw(rt, fmt.Sprintf("tpl%d/mid", i)))
+		default:
+			sh.stSizes = append(sh.stSizes, rapid.IntRange(300, 1200).Draw(rt, fmt.Sprintf("tpl%d/big", i)))
+		}
+	}
+	return sh
+}
+
+// c47DrawPeers draws the behaviour scripts of nPeers peers. Peer 0 of a non-malicious
+// set never refuses or drops.
+func c47DrawPeers(rt *rapid.T, label string, nPeers int, bad bool, drops *int) ([]*c47Peer, string) {
+	var peers []*c47Peer
+	var desc []string
+	for i := 0; i < nPeers; i++ {
+		cp := &c47Peer{rnd: c47Rand{rapid.Uint64().Draw(rt, fmt.Sprintf("%s/p%d/seed", label, i)) | 1}}
+		if bad {
+			for k := 0; k < 4; k++ {
+				cp.script[k] = []int{rapid.SampledFrom([]int{bhCorrupt, bhNoProof, bhGap, bhAlterKey, bhSwap, bhDropProofNode}).Draw(rt, fmt.Sprintf("%s/p%d/bad%d", label, i, k))}
+			}
+			cp.cyclic = true
+		} else {
+			cp.script = c47GenScript(rt, fmt.Sprintf("%s/p%d", label, i), i == 0, drops)
+		}
+		desc = append(desc, c47ScriptString(cp.script))
+		peers = append(peers, cp)
+	}
+	return peers, strings.Join(desc, ";")
+}
+
 var c47Stalls, c47Cases atomic.Int64
 var c47Slow atomic.Value
 var c47StackDumps, c47DebugLines atomic.Int64
@@ -1104,39 +1232,7 @@ func TestVerifC47SyncV1(t *testing.T) {
 				st.Note("slow run (%v): %s", d.Round(time.Second), c47Slow.Load())
 			}
 		}()
-		// ---- target state
-		sh := c47Shape{
-			scheme:    rapid.SampledFrom([]string{rawdb.HashScheme, rawdb.PathScheme}).Draw(rt, "scheme"),
-			seed:      rapid.Uint64().Draw(rt, "stateSeed"),
-			hostile:   rapid.Bool().Draw(rt, "hostileKeys"),
-			stShare:   rapid.SampledFrom([]int{0, 20, 60, 90, 90}).Draw(rt, "storageShare"),
-			codeShare: rapid.SampledFrom([]int{0, 30, 90}).Draw(rt, "codeShare"),
-		}
-		maxAcc := 120
-		if vs.Thorough() {
-			maxAcc = 300
-		}
-		switch rapid.IntRange(0, 5).Draw(rt, "nAccCls") {
-		case 0:
-			sh.nAccounts = rapid.IntRange(1, 3).Draw(rt, "nAccTiny")
-		case 1, 2:
-			sh.nAccounts = rapid.IntRange(4, 30).Draw(rt, "nAccSmall")
-		default:
-			sh.nAccounts = rapid.IntRange(31, maxAcc).Draw(rt, "nAcc")
-		}
-		nTpl := rapid.IntRange(1, 3).Draw(rt, "nStorageTemplates")
-		for i := 0; i < nTpl; i++ {
-			switch rapid.IntRange(0, 5).Draw(rt, fmt.Sprintf("tpl%d/cls", i)) {
-			case 0:
-				sh.stSizes = append(sh.stSizes, 1)
-			case 1, 2:
-				sh.stSizes = append(sh.stSizes, rapid.IntRange(2, 12).Draw(rt, fmt.Sprintf("tpl%d/few", i)))
-			case 3, 4:
-				sh.stSizes = append(sh.stSizes, rapid.IntRange(20, 150).Draw(rt, fmt.Sprintf("tpl%d/mid", i)))
-			default:
-				sh.stSizes = append(sh.stSizes, rapid.IntRange(300, 1200).Draw(rt, fmt.Sprintf("tpl%d/big", i)))
-			}
-		}
+		sh := c47DrawShape(rt)
 		state, err := c47BuildState(sh)
 		if err != nil {
 			t.Fatalf("VERIF-HARNESS-BUG: building the target state: %v", err)
@@ -1150,23 +1246,12 @@ func TestVerifC47SyncV1(t *testing.T) {
 			drops = 0
 		}
 		mkPeers := func(label string, run *c47Run, bad bool) ([]*testPeer, string) {
+			cps, desc := c47DrawPeers(rt, label, nPeers, bad, &drops)
 			var peers []*testPeer
-			var desc []string
-			for i := 0; i < nPeers; i++ {
-				cp := &c47Peer{rnd: c47Rand{rapid.Uint64().Draw(rt, fmt.Sprintf("%s/p%d/seed", label, i)) | 1}}
-				switch {
-				case bad:
-					for k := 0; k < 4; k++ {
-						cp.script[k] = []int{rapid.SampledFrom([]int{bhCorrupt, bhNoProof, bhGap, bhAlterKey, bhSwap, bhDropProofNode}).Draw(rt, fmt.Sprintf("%s/p%d/bad%d", label, i, k))}
-					}
-					cp.cyclic = true
-				default:
-					cp.script = c47GenScript(rt, fmt.Sprintf("%s/p%d", label, i), i == 0, &drops)
-				}
-				desc = append(desc, c47ScriptString(cp.script))
+			for i, cp := range cps {
 				peers = append(peers, c47NewPeer(t, fmt.Sprintf("%s-peer%d", label, i), run, cp))
 			}
-			return peers, strings.Join(desc, ";")
+			return peers, desc
 		}
 		inner := memorydb.New()
 		wdb := &c47DB{KeyValueStore: inner, state: state, notes: map[string]int{}}
@@ -1211,7 +1296,7 @@ func TestVerifC47SyncV1(t *testing.T) {
 			// nothing but invalid data on offer: the sync must not complete; stop it after a
 			// number of served requests
 			run.cancelAt = int64(rapid.IntRange(20, 120).Draw(rt, "badRequests"))
-			out := c47Sync(sy, run, state.root, 3*time.Minute)
+			out := c47Sync(func(c chan struct{}) error { return sy.Sync(state.root, c) }, func() string { return c47DumpSyncer(sy) }, run, 3*time.Minute)
 			barrier()
 			if out.err == nil {
 				if err := c47Compare(inner, state); err != nil {
@@ -1224,7 +1309,7 @@ func TestVerifC47SyncV1(t *testing.T) {
 			return
 		}
 
-		out := c47Sync(sy, run, state.root, 6*time.Minute)
+		out := c47Sync(func(c chan struct{}) error { return sy.Sync(state.root, c) }, func() string { return c47DumpSyncer(sy) }, run, 6*time.Minute)
 		restarted := false
 		if out.stalled {
 			stalled("first-cycle")
@@ -1246,7 +1331,7 @@ func TestVerifC47SyncV1(t *testing.T) {
 				sy2.Register(p)
 				p.remote = sy2
 			}
-			out = c47Sync(sy2, run2, state.root, 6*time.Minute)
+			out = c47Sync(func(c chan struct{}) error { return sy2.Sync(state.root, c) }, func() string { return c47DumpSyncer(sy2) }, run2, 6*time.Minute)
 			run.served.Add(run2.served.Load())
 			run.rejected.Add(run2.rejected.Load())
 			run.tampered.Add(run2.tampered.Load())
@@ -1309,4 +1394,159 @@ func TestVerifC47SyncV1(t *testing.T) {
 			t.Fatalf("VERIF-INCONCLUSIVE: only %d of %d syncs were run before the deadline (%d stalled)", c47Cases.Load(), want, c47Stalls.Load())
 		}
 	}
+}
+
+// c47DumpSyncerV2 renders the scheduler state of a stalled snap/2 syncer.
+func c47DumpSyncerV2(s *syncerV2) string {
+	s.lock.RLock()
+	defer s.lock.RUnlock()
+	return fmt.Sprintf("syncerV2: phase=%d tasks=%d peers=%d stateless=%v idlers: acc=%v sto=%v code=%v reqs: acc=%d sto=%d code=%d",
+		s.getPhase(), len(s.tasks), len(s.peers), s.statelessPeers, s.accountIdlers, s.storageIdlers, s.bytecodeIdlers,
+		len(s.accountReqs), len(s.storageReqs), len(s.bytecodeReqs))
+}
+
+var c47CasesV2 atomic.Int64
+
+// TestVerifC47SyncV2: the snap/2 syncer against a fixed pivot (flat-state download from
+// scripted peers, then local trie generation), with cancel + restart. Pivot moves and
+// access-list catch-up are not generated.
+func TestVerifC47SyncV2(t *testing.T) {
+	st := vs.New("C47", t)
+	vs.Check(t, 0.5, func(rt *rapid.T) {
+		c := st.Case()
+		c47CasesV2.Add(1)
+		sh := c47DrawShape(rt)
+		state, err := c47BuildState(sh)
+		if err != nil {
+			t.Fatalf("VERIF-HARNESS-BUG: building the target state: %v", err)
+		}
+		nPeers := rapid.IntRange(1, 4).Draw(rt, "nPeers")
+		drops := 2
+		ttl := rapid.SampledFrom([]time.Duration{150 * time.Millisecond, 600 * time.Millisecond, 5 * time.Second}).Draw(rt, "ttl")
+		if ttl > time.Second {
+			drops = 0
+		}
+		inner := memorydb.New()
+		wdb := &c47DB{KeyValueStore: inner, state: state, notes: map[string]int{}}
+		db := rawdb.NewDatabase(wdb)
+		pivot := mkPivot(0, state.root)
+		cancelAt := int64(0)
+		if rapid.IntRange(0, 2).Draw(rt, "restart") == 0 {
+			cancelAt = int64(rapid.IntRange(1, 60).Draw(rt, "cancelAfterRequests"))
+		}
+		var desc string
+		start := func(label string, run *c47Run) *syncerV2 {
+			cps, d := c47DrawPeers(rt, label, nPeers, false, &drops)
+			if desc != "" {
+				desc += " || after restart: "
+			}
+			desc += d
+			sy := newSyncerV2(db, sh.scheme)
+			sy.rates.OverrideTTLLimit = ttl
+			for i, cp := range cps {
+				p := c47NewPeerV2(t, fmt.Sprintf("%s-peer%d", label, i), run, cp)
+				sy.Register(p)
+				p.remote = sy
+			}
+			return sy
+		}
+		run := &c47Run{state: state, cancel: make(chan struct{}), cancelAt: cancelAt}
+		total := run
+		sy := start("a", run)
+		report := func(format string, a ...any) {
+			rt.Fatalf("%s\n  snap/2 state: %+v root=%x\n  peers: %s\n  served=%d rejected=%d(acc %d sto %d code %d) tampered=%d chunked-storage-requests=%d",
+				fmt.Sprintf(format, a...), sh, state.root, desc, total.served.Load(), total.rejected.Load(),
+				total.rejectedBy[0].Load(), total.rejectedBy[1].Load(), total.rejectedBy[2].Load(), total.tampered.Load(), total.chunked.Load())
+		}
+		barrier := func() {
+			wdb.mu.Lock()
+			v := append([]string{}, wdb.viol...)
+			wdb.mu.Unlock()
+			if len(v) > 0 {
+				report("unverified data reached the database: %s", strings.Join(v, " | "))
+			}
+		}
+		stalled := func(where string) {
+			n := c47Stalls.Add(1)
+			c.Class("inconclusive-stall/" + where)
+			st.Note("snap/2 stall (%s): scheme=%s accounts=%d peers=%s", where, sh.scheme, sh.nAccounts, desc)
+			barrier()
+			if n > 3 && n*4 > c47CasesV2.Load()+c47Cases.Load() {
+				t.Fatalf("VERIF-INCONCLUSIVE: %d syncs stalled; wall-clock stalls are not a verdict", n)
+			}
+		}
+		out := c47Sync(func(cc chan struct{}) error { return sy.Sync(pivot, cc) }, func() string { return c47DumpSyncerV2(sy) }, run, 6*time.Minute)
+		restarted := false
+		if out.stalled {
+			stalled("first-cycle")
+			return
+		}
+		if out.err != nil {
+			if cancelAt == 0 {
+				report("snap/2 Sync failed: %v", out.err)
+			}
+			barrier()
+			restarted = true
+			run2 := &c47Run{state: state, cancel: make(chan struct{})}
+			sy2 := start("b", run2)
+			out = c47Sync(func(cc chan struct{}) error { return sy2.Sync(pivot, cc) }, func() string { return c47DumpSyncerV2(sy2) }, run2, 6*time.Minute)
+			run.served.Add(run2.served.Load())
+			run.rejected.Add(run2.rejected.Load())
+			run.tampered.Add(run2.tampered.Load())
+			run.chunked.Add(run2.chunked.Load())
+			for k := 0; k < 4; k++ {
+				run.rejectedBy[k].Add(run2.rejectedBy[k].Load())
+			}
+			if out.stalled {
+				stalled("after-restart")
+				return
+			}
+			if out.err != nil {
+				report("snap/2 Sync after restart failed: %v", out.err)
+			}
+		}
+		barrier()
+		if err := c47Compare(inner, state); err != nil {
+			report("snap/2 Sync returned nil but the database is not the target state: %v", err)
+		}
+		verifyTrie(sh.scheme, inner, state.root, t)
+		verifyAdoptedSyncedState(sh.scheme, inner, state.root, state.accElems, t)
+		// AdoptSyncedState may have written bookkeeping; the flat state must be untouched
+		if err := c47CompareFlat(inner, state); err != nil {
+			report("flat state changed by adopting the synced state: %v", err)
+		}
+		nt := run.rejected.Load() > 0 && run.chunked.Load() > 0
+		c.NonTrivial(nt, fmt.Sprintf("v2|%+v|%s|%d", sh, desc, cancelAt))
+		c.Classf("v2/scheme/%s", sh.scheme)
+		c.Classf("v2/restart=%v", restarted)
+		c.Classf("v2/rejected>0=%v", run.rejected.Load() > 0)
+		c.Classf("v2/chunked-storage=%v", run.chunked.Load() > 0)
+		c.Sample(nt, func() any {
+			return map[string]any{"protocol": "snap/2", "state": fmt.Sprintf("%+v", sh), "peers": desc, "cancelAfter": cancelAt,
+				"served": run.served.Load(), "rejected": run.rejected.Load(), "chunkedStorageRequests": run.chunked.Load()}
+		})
+	})
+}
+
+// c47CompareFlat checks only the flat accounts and slots (exactly the target's).
+func c47CompareFlat(inner ethdb.KeyValueStore, s *c47State) error {
+	accounts, slots := 0, 0
+	it := inner.NewIterator(nil, nil)
+	defer it.Release()
+	for it.Next() {
+		key, val := it.Key(), it.Value()
+		switch {
+		case len(key) == 33 && key[0] == 'a':
+			if a := s.byHash[common.BytesToHash(key[1:])]; a == nil || !bytes.Equal(val, a.slim) {
+				return fmt.Errorf("flat account %x = %x differs from the target", key[1:], val)
+			}
+			accounts++
+		case len(key) == 65 && key[0] == 'o':
+			slots++
+		}
+	}
+	if accounts != len(s.accts) || slots != s.slots {
+		return fmt.Errorf("%d flat accounts / %d slots stored, target has %d / %d", accounts, slots, len(s.accts), s.slots)
+	}
+	return nil
 }
